@@ -288,7 +288,7 @@ def wrap_facts(facts, nat, boolean, strlist):
     cur = r"\w+\.epoch\(\)\.as_u64\(\)"
     newest = cur + r"\.saturating_sub\(1\)"
     oldest = newest + r"\.saturating_sub\(" + lb + r"\.saturating_sub\(1\)\)"
-    past_call = calls(recent, r"(?:self\s*\.\s*)?try_decrypt_with_past_epochs")
+    past_call = calls(flat(recent), r"(?:self\.)?try_decrypt_with_past_epochs")
     lookback_arg = past_call[0][1][-1].replace("_", "") if past_call and past_call[0][1] else ""
     boolean("lookbackAsModelled",
             0 < recent.find("self.exporter_secret(") < recent.find("decrypt_with_exporter_secret(") < recent.find("try_decrypt_with_past_epochs(")
@@ -327,8 +327,8 @@ def wrap_facts(facts, nat, boolean, strlist):
     ev = re.escape(param_of_type(val, "validate_created_at", r"&\s*(?:nostr::)?Event", "fn:validate_created_at")) + r"\.created_at\.as_secs\(\)"
     now = r"Timestamp::now\(\)\.as_secs\(\)"
     boolean("createdAtWindowAsModelled",
-            bool(re.search(r"if " + ev + r" > \(?" + now + r"\.saturating_add\(self\.config\.max_future_skew_secs\)\)? \{ return Err\(Error::InvalidTimestamp", vflat))
-            and bool(re.search(r"if " + ev + r" < \(?" + now + r"\.saturating_sub\(self\.config\.max_event_age_secs\)\)? \{ return Err\(Error::InvalidTimestamp", vflat))
+            bool(re.search(r"if \(?" + ev + r" > \(?" + now + r"\.saturating_add\(self\.config\.max_future_skew_secs\)\)?\)? \{ return Err\(Error::InvalidTimestamp", vflat))
+            and bool(re.search(r"if \(?" + ev + r" < \(?" + now + r"\.saturating_sub\(self\.config\.max_event_age_secs\)\)?\)? \{ return Err\(Error::InvalidTimestamp", vflat))
             and vc.count("Error::InvalidTimestamp") == 2 and vc.count("Timestamp::now()") == 1,
             "validation.rs validate_created_at: refused iff created_at > now ⊕ skew (saturating) or created_at < now ⊖ max_age (saturating); one clock read")
     ex = fn_body(val, "extract_nostr_group_id", "fn:extract_nostr_group_id")
@@ -878,12 +878,11 @@ def main():
     # the key derivation hands (label of its scheme-version parameter, its hash / mime / filename parameters, a byte literal)
     dk = fn_body(cr2, "derive_encryption_key_with_secret", "fn:derive_encryption_key_with_secret")
     dk_params = [p_ for p_, _ in fn_params(cr2, "derive_encryption_key_with_secret", "fn:derive_encryption_key_with_secret")]
-    dk_call = calls(dk, "build_hkdf_context")
+    dk_call = calls(flat(dk), "build_hkdf_context")          # locals inlined: the label argument is the call that computes it
     mk = None
     if dk_call and len(dk_call[0][1]) == 5 and len(dk_params) == 5:
         a = dk_call[0][1]
-        label_ok = bool(re.search(r"\blet\s+" + re.escape(a[0]) + r"\s*(?::[^=;]+)?=\s*get_scheme_label\(\s*" + re.escape(dk_params[1]) + r"\s*\)", dk)) \
-            if re.fullmatch(r"\w+", a[0]) else bool(re.fullmatch(r"get_scheme_label\(\s*" + re.escape(dk_params[1]) + r"\s*\)\??", a[0]))
+        label_ok = bool(re.fullmatch(r"get_scheme_label\(" + re.escape(dk_params[1]) + r"\)\??", a[0]))
         if label_ok and a[1:4] == dk_params[2:5]:
             mk = re.fullmatch(r'b"([^"]+)"', a[4])
     if not mk:
